@@ -36,6 +36,11 @@ def observe(cmd, args):
         a, b = parse(args[0]), parse(args[1])
         if a is None or b is None: return "E"
         return "T" if a == b else "F"
+    if cmd == "r.eqh":
+        # == and "hash(a) == hash(b)" (the model: equality of the key that __hash__ hashes)
+        a, b = parse(args[0]), parse(args[1])
+        if a is None or b is None: return "E"
+        return ("T" if a == b else "F") + ("T" if hash(a) == hash(b) else "F")
     if cmd == "law.r.roundtrip":
         # str(r) parses back to an equal requirement with the same string and hash; the parts are recovered
         r = parse(args[0])
